@@ -814,6 +814,10 @@ def run(ctx):
         static_bad.append({"kind": "export", "module": t["modules"][m]["qual"], "name": N[n]})
     py_stream(ctx, "names.static_vs_live", static_bad, lambda c: "fails", lambda c: "fails" if demo(c) is not None else "resolves")
     ctx.extra["unresolved"] = static_bad[:40]
+    for c in static_bad:  # the list of offenders, for the reader (stderr: the decision lines stay alone on stdout)
+        what = {"ref": "%(module)s: %(function)s -> %(name)s", "import": "%(module)s: %(function)s: from %(target)s import %(name)s",
+                "attr": "%(module)s.%(cls)s: %(method)s -> self.%(attr)s", "export": "%(module)s.__all__ -> %(name)s"}[c["kind"]] % c
+        print("C20 unresolved: " + what, file=sys.stderr)
     ctx.extra["assumptions"] = ASSUMPTIONS
     ctx.extra["trusted_base"] = TRUSTED
     ctx.extra["rule"] = ("a case is one obligation of the property (one (module, function, name) reference, one from-import, one "
